@@ -165,13 +165,20 @@ class SeqDeque:
     def py_truth(self, it):
         return _sym.mkbool(_z3.Length(self.t) > 0)
 
-    def py_getitem(self, it, i):
+    def _in_range(self, it, i, what):
+        # An obligation, not a branch: it goes through the whole solver chain (sequence constraints make the primary
+        # solver time out on feasibility queries, and a branch explored only because of a timeout would end undecided).
         n = self.py_len(it)
-        if it.path.branch(_sym.Or(i < 0, i >= n)):
-            raise _Unsupported("negative / out-of-range index into the abstract queue")
+        it.path.oblige(f"the queue is only {what} at an index inside its bounds (no IndexError can escape the purge)",
+                       _sym.And(i >= 0, i < n), kind="site")
+        it.path.assume(_sym.And(i >= 0, i < n))
+
+    def py_getitem(self, it, i):
+        self._in_range(it, i, "read")
         return _EntryRef(self.t[_sym.int_t(i)])
 
     def py_delitem(self, it, i):
+        self._in_range(it, i, "deleted from")
         it_ = _sym.int_t(i)
         n = _z3.Length(self.t)
         self.t = _z3.Concat(_z3.SubSeq(self.t, 0, it_), _z3.SubSeq(self.t, it_ + 1, n - it_ - 1))
